@@ -4,8 +4,11 @@ import json, os, re, subprocess, sys, time, hashlib, shutil
 
 VERIF = os.path.dirname(os.path.dirname(os.path.abspath(__file__)))
 SPEC = os.path.join(VERIF, "spec")
-WORK = os.path.join(VERIF, "work")
-HARNESS = os.path.join(VERIF, "harness")
+# The three overrides below exist only for mutation testing in a scratch copy (bin/seedbg): the
+# registered checks never set them and always build against /repo and write /verif/evidence.
+WORK = os.environ.get("VERIF_WORK_DIR") or os.path.join(VERIF, "work")
+HARNESS = os.environ.get("VERIF_HARNESS_DIR") or os.path.join(VERIF, "harness")
+EVIDENCE_DIR = os.environ.get("VERIF_EVIDENCE_DIR") or os.path.join(VERIF, "evidence")
 HBIN = os.path.join(HARNESS, "target", "release", "geoharness")
 KF_FILE = os.path.join(VERIF, "findings", "known_findings.jsonl")
 JAVA_CP = "/opt/veriftools/tla/tla2tools.jar:/opt/veriftools/tla/CommunityModules-deps.jar"
@@ -244,8 +247,8 @@ def finish(pid, tier, seed, level, coverage, assumptions, t0, mismatches, replay
     coverage["known_finding_hits"] = {k: v[1] for k, v in hit.items()}
     ev = {"property_id": pid, "tier": tier, "seed": seed, "level": level, "coverage": coverage,
           "assumptions": assumptions, "wall_s": round(time.time() - t0, 1), "violations": len(new)}
-    os.makedirs(os.path.join(VERIF, "evidence"), exist_ok=True)
-    with open(os.path.join(VERIF, "evidence", pid + ".json"), "w") as f:
+    os.makedirs(EVIDENCE_DIR, exist_ok=True)
+    with open(os.path.join(EVIDENCE_DIR, pid + ".json"), "w") as f:
         json.dump(ev, f, indent=1, sort_keys=True)
         f.write("\n")
     if new:
